@@ -29,6 +29,7 @@ from deepproto.proto.resource.v1.resource_pb2 import Resource
 # noinspection PyUnresolvedReferences
 from deepproto.proto.tracepoint.v1.tracepoint_pb2 import MetricType
 
+from deep import logging
 from .grpc_service import GRPCService  # noqa: F401
 from ..api.tracepoint.tracepoint_config import LabelExpression, MetricDefinition
 from ..api.tracepoint.trigger import build_trigger, Trigger
@@ -119,14 +120,21 @@ def convert_response(response) -> List[Trigger]:
     """
     all_triggers: Dict[str, Trigger] = {}
     for r in response:
-        # from the incoming tracepoints create a Trigger with actions
-        trigger = build_trigger(r.ID, r.path, r.line_number, dict(r.args), [w for w in r.watches],
-                                __convert_metric_definition(r.metrics))
-        location_id = trigger.id
-        # if we already have a trigger for this location then merge the new actions into it
-        if location_id in all_triggers:
-            all_triggers[location_id].merge_actions(trigger.actions)
-        else:
-            all_triggers[location_id] = trigger
+        # a tracepoint we cannot interpret must not affect the other tracepoints in the response
+        try:
+            # from the incoming tracepoints create a Trigger with actions
+            trigger = build_trigger(r.ID, r.path, r.line_number, dict(r.args), [w for w in r.watches],
+                                    __convert_metric_definition(r.metrics))
+            if trigger is None:
+                logging.warning("Cannot interpret tracepoint %s: %s", r.ID, dict(r.args))
+                continue
+            location_id = trigger.id
+            # if we already have a trigger for this location then merge the new actions into it
+            if location_id in all_triggers:
+                all_triggers[location_id].merge_actions(trigger.actions)
+            else:
+                all_triggers[location_id] = trigger
+        except Exception:
+            logging.exception("Cannot process tracepoint %s", r.ID)
 
     return list(all_triggers.values())
